@@ -15,5 +15,14 @@ Pairs == UNION {{[site |-> s, fields |-> <<i, j>>, kinds |-> <<KindFor(s, i), Ki
 Triples == UNION {{[site |-> s, fields |-> <<i, Nxt(i, o), Nxt(i, o + 3)>>, kinds |-> <<KindFor(s, i), KindFor(s, i + 1), KindFor(s, i + 2)>>]
                      : s \in Sites, o \in (IF Full THEN {0, 1, 2, 7} ELSE {1})} : i \in 1..NSpecs}
 Distinct(c) == \A a, b \in 1..Len(c.fields) : a # b => c.fields[a] # c.fields[b]
-MCConfigs == {c \in Singles \cup Pairs \cup Triples : OkConfig(c) /\ Distinct(c)}
+\* reference parameters: every single, every ordered pair WITH repetition (the same reference in two fields), and
+\* triples reference / plain / reference (Full: every triple of reference specs)
+RefIdx == (NPlain + 1)..NSpecs
+Lit(n) == [i \in 1..n |-> "lit"]
+RefConfigs ==
+  {[site |-> "refs", fields |-> <<i>>, kinds |-> Lit(1)] : i \in RefIdx}
+  \cup {[site |-> "refs", fields |-> <<i, j>>, kinds |-> Lit(2)] : i \in RefIdx, j \in RefIdx}
+  \cup {[site |-> "refs", fields |-> <<i, Nxt(i, 0) % NPlain + 1, j>>, kinds |-> Lit(3)] : i \in RefIdx, j \in RefIdx}
+  \cup (IF Full THEN {[site |-> "refs", fields |-> <<i, j, k>>, kinds |-> Lit(3)] : i \in RefIdx, j \in RefIdx, k \in RefIdx} ELSE {})
+MCConfigs == {c \in Singles \cup Pairs \cup Triples : OkConfig(c) /\ Distinct(c)} \cup {c \in RefConfigs : OkConfig(c)}
 =============================================================================
